@@ -125,11 +125,36 @@ theorem slots_finite {π : Type} {sel : Selector π} (hsel : SelOK sel) (thr : X
   · rw [h]; exact h0
   · rw [h1]; exact hroot _ (List.getElem_mem hk) h2 h3
 
+/-- The whole optimizer state (all slots driven by the same counter, any number of slots): if all initial
+preconditioners are good and every candidate whose error passes the gate is good, every stored
+preconditioner is good after every fault history. -/
+theorem state_slots_finite {π : Type} {sel : Selector π} (hsel : SelOK sel) (thr : XF) (hthr : thr.isNaN = false)
+    (itv count : Nat) (Good : π → Prop) (ss : List (Slot π)) (hist : List (List (Inp π)))
+    (h0 : ∀ s ∈ ss, Good s.precond)
+    (hroot : ∀ ins ∈ hist, ∀ i ∈ ins, i.err.isNaN = false → i.err.lt thr = true → Good i.cand) :
+    ∀ s ∈ stateRun sel thr itv count ss hist, Good s.precond :=
+  stateRun_good hsel hthr itv Good hist count ss h0 hroot
+
 /-- The three modes satisfy the hypothesis `SelOK` of the invariants. -/
 theorem modes_selOK {π κ δ β α : Type} {n : Nat} :
     SelOK (select : Selector π) ∧ SelOK (selectTriple : Selector (κ × δ × β))
       ∧ SelOK (selectWhere : Selector (Vector α n)) :=
   ⟨selOK_select, selOK_triple, selOK_where⟩
+
+/-- IEEE facts of `XF` the gate depends on: NaN absorbs, `0 * ∞`, `∞ - ∞` are NaN, every comparison with NaN is false. -/
+theorem xf_ieee_facts (x : XF) (q : Rat) :
+    XF.nan + x = XF.nan ∧ x + XF.nan = XF.nan ∧ XF.nan * x = XF.nan ∧ x * XF.nan = XF.nan
+      ∧ (XF.fin 0) * XF.pinf = XF.nan ∧ XF.pinf - XF.pinf = XF.nan ∧ XF.pinf + XF.ninf = XF.nan
+      ∧ XF.ge XF.nan x = false ∧ XF.ge x XF.nan = false ∧ XF.lt XF.nan x = false ∧ XF.lt x XF.nan = false
+      ∧ XF.ge XF.pinf (XF.fin q) = true ∧ XF.lt (XF.fin q) XF.pinf = true := by
+  refine ⟨?_, ?_, ?_, ?_, ?_, ?_, ?_, XF.ge_nan_left x, XF.ge_nan_right x, XF.lt_nan_left x, XF.lt_nan_right x, rfl, rfl⟩
+  · cases x <;> rfl
+  · cases x <;> rfl
+  · cases x <;> rfl
+  · cases x <;> rfl
+  · show XF.mul _ _ = _; simp [XF.mul, XF.infTimes]
+  · rfl
+  · rfl
 
 /-! ### the unrepaired sharded path (negative) -/
 
